@@ -324,16 +324,19 @@ def selectFields (es : List Entry) (fv : Reqs) (tag : Option String) (field : Op
       if sel.isEmpty then .error .unknownTag else .ok sel
     | none => .ok (enabledFields es fv)
 
+/-- `self.field_values[identifier] << field.start_at` -/
+def valBits (fv : Reqs) (e : Entry) : Nat :=
+  match fv.lookup e.ident, e.field.startAt with
+  | some x, some s => x <<< s
+  | _, _ => 0
+
 def getValue (es : List Entry) (fv : Reqs) (tag : Option String) (field : Option Ident) : Except Err Nat :=
   match selectFields es fv tag field with
   | .error e => .error e
   | .ok sel =>
     if sel.any (fun e => (fv.lookup e.ident).isNone) then .error .valueError
     else if sel.any (fun e => !e.field.isFixed) then .error .valueError
-    else .ok (sel.foldl (fun v e =>
-      match fv.lookup e.ident, e.field.startAt with
-      | some x, some s => v ||| (x <<< s)
-      | _, _ => v) 0)
+    else .ok (sel.foldl (fun v e => v ||| valBits fv e) 0)
 
 def getMask (es : List Entry) (fv : Reqs) (tag : Option String) (field : Option Ident) : Except Err Nat :=
   match selectFields es fv tag field with
